@@ -106,27 +106,31 @@ theorem allDone_pairFrom_nil (ps : List (List Op)) : ∀ j, ps.all List.isEmpty 
     simp only [allDone] at this ⊢
     simp [pairFrom, project, h.1, this]
 
-theorem lin_of_allDone (now fuel : Nat) (s : Store) (ts : List Pending) (h : allDone ts = true) :
-    lin now fuel s ts = true := by
-  cases fuel <;> simp [lin, h]
+theorem linK_of_allDone (now fuel : Nat) (post : Store → Bool) (s : Store) (ts : List Pending)
+    (h : allDone ts = true) (hp : post s = true) : linK now post fuel s ts = true := by
+  cases fuel <;> simp [linK, h, hp]
 
 /-- For every schedule that runs all callers to completion, from related stores, the search
-explains the per-thread answers of the model. -/
-theorem lin_sched (now : Nat) (sched : List Nat) : ∀ (m s : Store) (progs : List (List Op)) (fuel : Nat),
+explains the per-thread answers of the model and ends in a store related to the model's. -/
+theorem linK_sched (now : Nat) (post : Store → Bool) (sched : List Nat) :
+    ∀ (m s : Store) (progs : List (List Op)) (fuel : Nat),
     R now m s → completes sched progs = true → totalLen progs ≤ fuel →
-    lin now fuel s (pairFrom 0 progs (runSched now sched m progs)) = true := by
+    (∀ s', R now (execSched now sched m progs) s' → post s' = true) →
+    linK now post fuel s (pairFrom 0 progs (runSched now sched m progs)) = true := by
   induction sched with
   | nil =>
-    intro m s progs fuel _ hc _
+    intro m s progs fuel hR hc _ hpost
     simp only [runSched]
-    exact lin_of_allDone _ _ _ _ (allDone_pairFrom_nil progs 0 (by simpa [completes, remaining] using hc))
+    exact linK_of_allDone _ _ _ _ _
+      (allDone_pairFrom_nil progs 0 (by simpa [completes, remaining] using hc))
+      (hpost s (by simpa [execSched] using hR))
   | cons i is ih =>
-    intro m s progs fuel hR hc hfuel
+    intro m s progs fuel hR hc hfuel hpost
     cases hp : popThread progs i with
     | none =>
       have hc' : completes is progs = true := by simpa [completes, remaining, hp] using hc
       simp only [runSched, hp]
-      exact ih m s progs fuel hR hc' hfuel
+      exact ih m s progs fuel hR hc' hfuel (by simpa [execSched, hp] using hpost)
     | some x =>
       obtain ⟨rest, hget, hset⟩ := popThread_some hp
       have hc' : completes is x.2 = true := by simpa [completes, remaining, hp] using hc
@@ -135,7 +139,7 @@ theorem lin_sched (now : Nat) (sched : List Nat) : ∀ (m s : Store) (progs : Li
       cases fuel with
       | zero => omega
       | succ f =>
-        simp only [runSched, hp, lin]
+        simp only [runSched, hp, linK]
         apply Bool.or_eq_true_iff.mpr
         right
         apply List.any_eq_true.mpr
@@ -149,7 +153,33 @@ theorem lin_sched (now : Nat) (sched : List Nat) : ∀ (m s : Store) (progs : Li
           · show render (TTLStore.step Spec.dflt now x.1 s).2 = render (step now x.1 m).2
             rw [hst.1]; rfl
           · have hR' : R now (step now x.1 m).1 (TTLStore.step Spec.dflt now x.1 s).1 := hst.2
-            exact ih _ _ x.2 f hR' hc' (by rw [hset]; omega)
+            exact ih _ _ x.2 f hR' hc' (by rw [hset]; omega) (by simpa [execSched, hp] using hpost)
+
+theorem lin_sched (now : Nat) (sched : List Nat) (m s : Store) (progs : List (List Op)) (fuel : Nat)
+    (hR : R now m s) (hc : completes sched progs = true) (hf : totalLen progs ≤ fuel) :
+    lin now fuel s (pairFrom 0 progs (runSched now sched m progs)) = true :=
+  linK_sched now (fun _ => true) sched m s progs fuel hR hc hf (fun _ _ => rfl)
+
+/-- A sequential history keeps the stores related, at any later clock reading. -/
+theorem exec_ref (h : History) : ∀ (m s : Store) (t0 now : Nat), R t0 m s →
+    (∀ e ∈ h, t0 ≤ e.1) → TTLStore.Monotone h = true → (∀ e ∈ h, e.1 ≤ now) → t0 ≤ now →
+    R now (exec h m) (TTLStore.exec defaultTTL h s) := by
+  induction h with
+  | nil => intro m s t0 now hR _ _ _ hle; exact R_mono hle hR
+  | cons e h ih =>
+    intro m s t0 now hR hge hmono hle _
+    obtain ⟨t, op⟩ := e
+    have ht : t0 ≤ t := hge (t, op) List.mem_cons_self
+    have hst := step_ref (R_mono ht hR) op
+    simp only [exec, TTLStore.exec]
+    have htail : (∀ e ∈ h, t ≤ e.1) ∧ TTLStore.Monotone h = true := by
+      cases h with
+      | nil => exact ⟨(fun _ he => nomatch he), rfl⟩
+      | cons b h2 =>
+        simp only [TTLStore.Monotone, Bool.and_eq_true, decide_eq_true_eq] at hmono
+        exact ⟨mono_ge (b :: h2) t ⟨hmono.1, hmono.2⟩, hmono.2⟩
+    exact ih _ _ t now hst.2 htail.1 htail.2 (fun e he => hle e (List.mem_cons_of_mem _ he))
+      (hle (t, op) List.mem_cons_self)
 
 /-- `zip` with the per-thread projections is `pairFrom`. -/
 theorem zip_range (ps : List (List Op)) (tr : List (Nat × Op × Res)) : ∀ j,
